@@ -1,7 +1,7 @@
 """Accessor / packing / predicate tables: ACC-STATE, ACC-PACK, ACC-OUT (writer/reader agreement of the
 small accessors everything else is phrased in), KIND-PRED (truth tables of the MatchKind predicates)."""
 from . import core
-from .core import show
+from .core import show, walk
 from .view import FnView, pnorm, OPTION
 from .pat import m, ANY, V, K, Par, C, F, E, P, B, Phi, members, OneOf
 from .da import Sites, endswith, anykey
@@ -186,6 +186,22 @@ def rule_accessors(ctx, R):
                 okv = any(x[0] == "agg" and x[2] == "Ok" and m(("agg", "intpack::U24", "U24", (("0", Par(1)),)), dict(x[3])["0"]) for x in members(t))
                 ok = okv and v_in is not None and v_out is not None and bool(oks) and bool(errs) and \
                     bool(v_in & oks) and not (v_in & errs) and bool(v_out & errs) and not (v_out & oks)
+                if not ok and not oks and not errs:
+                    # combinator form: `(v <= MAX).then(|| U24(v)).ok_or(msg)` — Ok-ness of the returned term under both assumptions,
+                    # payload = what the closure / the then_some argument builds
+                    s_in = cond.Explorer(S.root, in_range(True), some_atoms=[(lambda x: False, True)]).is_some_term(t)
+                    s_out = cond.Explorer(S.root, in_range(False), some_atoms=[(lambda x: False, True)]).is_some_term(t)
+                    pay = None
+                    for x in walk(t):
+                        if x[0] == "call" and isinstance(x[1], str) and core.callee_base(x[1]) in ("core::bool::then", "core::bool::then_some") and len(x[2]) == 2:
+                            a1 = x[2][1]
+                            if a1[0] == "closure":
+                                cr = S.fv.closure_ret(a1[1])
+                                pay = pnorm(cr) if cr is not None else None
+                            else:
+                                pay = a1
+                    okp = pay is not None and m(("agg", "intpack::U24", "U24", (("0", Par(1)),)), pay)
+                    ok = s_in is True and s_out is False and okp
                 ctx.check(ok, "ACC-PACK", tb[0], "u24-range-check", tb[0].span, "U24::try_from(v) must be Ok(U24(v)) exactly when v <= 0x00ff_ffff")
             else:
                 ctx.missing("ACC-PACK", "TryFrom<u32> for U24")
